@@ -1,6 +1,7 @@
 package main
 
 import (
+	"context"
 	"fmt"
 	"net/http"
 	"net/http/httptest"
@@ -595,6 +596,7 @@ type routeImpl struct {
 	// the shared BuildRequestURL object of buildq style 3 (created by the first such call after 'new')
 	rbShared   *rux.BuildRequestURL
 	raGvars    [][2]string // `gvar` ops of the case so far: in force (withGlobalVars) during every registration that follows
+	lastServed string      // path of the last `serve` op (the re-dispatch oracle starts from it)
 	raNil      string      // nil-ness of the params map the last lookup handed out / the last handler saw ("" = none)
 	raEnc      bool        // the router uses the escaped request path (mask bit 128)
 	heldAlm    []string    // an allowed-methods list an earlier QuickMatch returned (the slice itself) and what it read then
@@ -670,6 +672,7 @@ func newRouter(mask, cap int, icpt string, caching bool) *rux.Router {
 		opts = append(opts, rux.InterceptAll(icpt))
 	}
 	r := rux.New(opts...)
+	r.Use(routeFwdMW)
 	if mask&16 != 0 {
 		r.NotFound(func(c *rux.Context) {
 			c.SetStatus(404)
@@ -723,6 +726,42 @@ func (im *routeImpl) quick(r *rux.Router, m, p string) string {
 	return "none"
 }
 
+// routeFwdKey: the request context carries the URL the global middleware re-dispatches the context to
+type routeFwdKey struct{}
+
+// routeFwdMW is inert unless the request carries a forward target: then it rewrites the request URL and hands the
+// context to Router.HandleContext (rux's documented way to dispatch a context again), once.
+func routeFwdMW(c *rux.Context) {
+	to, ok := c.Req.Context().Value(routeFwdKey{}).(*url.URL)
+	if !ok || c.Req.Header.Get("X-Verif-Fwd") != "" {
+		return
+	}
+	c.Req.Header.Set("X-Verif-Fwd", "1")
+	c.Req.URL = to
+	c.Router().HandleContext(c)
+	c.Abort()
+}
+
+// serveFwd: a request for `from` that the global middleware re-dispatches to `p`
+func (im *routeImpl) serveFwd(r *rux.Router, m, from, p string) string {
+	w := httptest.NewRecorder()
+	to := &url.URL{Path: p}
+	fu := &url.URL{Path: from}
+	if im.raEnc {
+		var ok, ok2 bool
+		if to, ok = raEscapedURL(p); !ok {
+			return "harness: not the escaped path of a request"
+		}
+		if fu, ok2 = raEscapedURL(from); !ok2 {
+			return "harness: not the escaped path of a request"
+		}
+	}
+	req := &http.Request{Method: m, URL: fu, Header: http.Header{}, Proto: "HTTP/1.1", ProtoMajor: 1, ProtoMinor: 1}
+	req = req.WithContext(context.WithValue(context.Background(), routeFwdKey{}, to))
+	r.ServeHTTP(w, req)
+	return fmt.Sprintf("%d %s %s", w.Code, hx(w.Header().Get("Allow")), hx(w.Body.String()))
+}
+
 func (im *routeImpl) serve(r *rux.Router, m, p string) string {
 	w := httptest.NewRecorder()
 	req := &http.Request{Method: m, URL: &url.URL{Path: p}, Header: http.Header{}, Proto: "HTTP/1.1", ProtoMajor: 1, ProtoMinor: 1}
@@ -760,6 +799,7 @@ func (e routeEngine) Run(ops []string) (ans []string, oracle []string) {
 			a = guarded(func() string {
 				im.r = newRouter(mask, cap, icpt, im.caching)
 				im.heldAlm = nil
+				im.lastServed = ""
 				im.twin = nil
 				if im.caching {
 					im.twin = newRouter(mask, cap, icpt, false)
@@ -859,6 +899,18 @@ func (e routeEngine) Run(ops []string) (ans []string, oracle []string) {
 			nilMain := im.raNil
 			if strings.HasPrefix(a, "panic") {
 				oracle = append(oracle, fmt.Sprintf("C13 lookup panicked (%s) on an accepted table: %s", a, op))
+			}
+			// the same request reached through a re-dispatch (a middleware rewrites the URL of an earlier request and calls
+			// HandleContext): the context is reset, so the answer is the answer to the direct request
+			// (not on caching routers: the extra lookups would reorder the LRU list the model tracks)
+			if f[0] == "serve" && !im.caching && !strings.HasPrefix(a, "panic") && !strings.HasPrefix(a, "harness") {
+				if im.lastServed != "" && im.lastServed != p {
+					from := im.lastServed
+					if fw := guarded(func() string { return im.serveFwd(im.r, m, from, p) }); fw != a {
+						oracle = append(oracle, fmt.Sprintf("C02 a request for %q re-dispatched (HandleContext) to %q answered %q, the direct request %q: %s", from, p, fw, a, op))
+					}
+				}
+				im.lastServed = p
 			}
 			if im.twin != nil {
 				im.raNil = ""
